@@ -30,6 +30,10 @@ func cmdDump(args []string) int {
 		dumpSiblings(&Ctx{P: p}, strings.Split(strings.TrimPrefix(pat, "-siblings="), ","))
 		return 0
 	}
+	if pat == "-boolloops" {
+		dumpBoolLoops(&Ctx{P: p})
+		return 0
+	}
 	if pat == "-renames" {
 		for _, n := range renameNotes {
 			fmt.Println(n)
